@@ -35,7 +35,11 @@ WANTED = [("sbdfstring.c", "sbdf_convert_utf8_to_iso88591"), ("sbdfstring.c", "s
           # strings as the library stores them (an int length header in front of the bytes) and their writer
           ("internals.c", "sbdf_get_array_length"), ("sbdfstring.c", "sbdf_str_len"), ("internals.c", "sbdf_write_string"),
           # the comparison helpers (memcmp on the common prefix, then the lengths)
-          ("sbdfstring.c", "sbdf_str_cmp"), ("bytearray.c", "sbdf_ba_get_len"), ("bytearray.c", "sbdf_ba_memcmp")]
+          ("sbdfstring.c", "sbdf_str_cmp"), ("bytearray.c", "sbdf_ba_get_len"), ("bytearray.c", "sbdf_ba_memcmp"),
+          # creating, copying and releasing stored strings / byte arrays (malloc with a failure oracle, memcpy, strlen)
+          ("internals.c", "sbdf_allocate_array"), ("internals.c", "sbdf_dispose_array"), ("internals.c", "sbdf_copy_array"),
+          ("sbdfstring.c", "sbdf_str_create_len"), ("sbdfstring.c", "sbdf_str_create"), ("sbdfstring.c", "sbdf_str_destroy"),
+          ("sbdfstring.c", "sbdf_str_copy"), ("bytearray.c", "sbdf_ba_create"), ("bytearray.c", "sbdf_ba_destroy")]
 CALLABLE = set(w[1] for w in WANTED if len(w) == 2) | {"sbdf_swap"}
 
 
@@ -129,6 +133,14 @@ def is_charptr(t):
     return t.replace("const ", "").replace(" ", "") in ("char*", "unsignedchar*", "void*")
 
 
+def elem_size(t):
+    """size of the element a pointer type points to (what ++ and +n move by), or None"""
+    t = t.replace("const ", "").replace(" ", "")
+    if t in ("char*", "unsignedchar*", "void*"): return 1
+    if t == "int*": return 4
+    return None
+
+
 def zlit(v):
     return "(%d)" % v
 
@@ -217,6 +229,23 @@ def expr(n, scope):
             if cname == "fread":
                 f.w.add(v); return '(EReadByte "%s")' % v, f
             f.r.add(v); return '(EWriteByte (EVar "%s"))' % v, f
+        if cname == "malloc" and len(n["inner"]) == 2:
+            e_, f_ = expr(n["inner"][1], scope)
+            if f_.w or f_.io: raise Untranslatable("malloc size with side effects")
+            f_.io = True
+            return "(EMalloc %s)" % e_, f_
+        if cname == "free" and len(n["inner"]) == 2:
+            e_, f_ = expr(n["inner"][1], scope)
+            f_.io = True
+            return "(EFree %s)" % e_, f_
+        if cname == "strlen" and len(n["inner"]) == 2:
+            e_, f_ = expr(n["inner"][1], scope)
+            return "(EStrlen %s)" % e_, f_
+        if cname == "memcpy" and len(n["inner"]) == 4:
+            d_, fd = expr(n["inner"][1], scope); s_, fs = expr(n["inner"][2], scope); c_, fc = expr(n["inner"][3], scope)
+            if fd.w or fs.w or fc.w: raise Untranslatable("memcpy arguments with side effects")
+            f_ = fx_join(fd, fx_join(fs, fc)); f_.io = True
+            return "(EMemcpy %s %s %s)" % (d_, s_, c_), f_
         if cname == "memcmp" and len(n["inner"]) == 4:
             ps = []
             fj = Fx()
@@ -286,8 +315,10 @@ def expr(n, scope):
             if t not in CTY: raise Untranslatable("cast to " + t)
             e, f = expr(sub, scope)
             return "(ECast %s %s)" % (CTY[t], e), f
-        if ck == "NoOp" or (ck == "BitCast" and is_charptr(qt(n)) and is_charptr(qt(sub))):
+        if ck == "NoOp" or (ck == "BitCast" and elem_size(qt(n)) and elem_size(qt(sub))):
             return expr(sub, scope)
+        if ck == "NullToPointer":
+            return "ENull", Fx()
         raise Untranslatable("cast kind " + str(ck))
     if k == "UnaryOperator":
         op = n.get("opcode")
@@ -296,6 +327,9 @@ def expr(n, scope):
             v = var_of(sub, scope)
             if v is None: raise Untranslatable(op + " on a non-variable")
             f = Fx(); f.r.add(v); f.w.add(v)
+            es = elem_size(qt(sub))
+            if es and es != 1:
+                return '(%s "%s" %s)' % ("EPostAdd" if n.get("isPostfix") else "EPreAdd", v, zlit(es if op == "++" else -es)), f
             return '(%s%s "%s")' % ("EPost" if n.get("isPostfix") else "EPre", "Inc" if op == "++" else "Dec", v), f
         if op == "!":
             e, f = expr(sub, scope); return "(ELNot %s)" % e, f
@@ -324,12 +358,25 @@ def expr(n, scope):
             if la.get("kind") == "UnaryOperator" and la.get("opcode") == "*" and qt(unparen(la["inner"][0])).replace(" ", "") == "int*":
                 pv = unparen(la["inner"][0])
                 while pv.get("kind") == "ImplicitCastExpr": pv = unparen(pv["inner"][0])
-                if not (pv.get("kind") == "DeclRefExpr" and pv.get("referencedDecl", {}).get("kind") == "ParmVarDecl"): raise Untranslatable("store through an int* that is not a parameter")
-                nm = "*" + pv["referencedDecl"]["name"]
-                OUTPARAMS.add(nm)
-                e, f = expr(b, scope)
-                f.w.add(nm)
-                return '(EAssign "%s" %s)' % (nm, e), f
+                if pv.get("kind") == "DeclRefExpr" and pv.get("referencedDecl", {}).get("kind") == "ParmVarDecl":
+                    nm = "*" + pv["referencedDecl"]["name"]
+                    OUTPARAMS.add(nm)
+                    e, f = expr(b, scope)
+                    f.w.add(nm)
+                    return '(EAssign "%s" %s)' % (nm, e), f
+                # otherwise: an int stored into memory through a computed int pointer (below)
+            if la.get("kind") == "UnaryOperator" and la.get("opcode") == "*" and elem_size(qt(unparen(la["inner"][0]))) == 4:
+                p_, fp = expr(la["inner"][0], scope)
+                e, fe = expr(b, scope)
+                if not order_ok(fp, fe): raise Untranslatable("store whose operands depend on the evaluation order")
+                f = fx_join(fp, fe); f.io = True
+                return "(EStoreInt32 %s %s)" % (p_, e), f
+            if la.get("kind") == "ArraySubscriptExpr" and elem_size(qt(unparen(la["inner"][0]))) == 1:
+                p_, fp = expr(la["inner"][0], scope); i_, fi = expr(la["inner"][1], scope)
+                e, fe = expr(b, scope)
+                if fp.w or fi.w or fe.w: raise Untranslatable("subscripted store with side effects")
+                f = fx_join(fp, fx_join(fi, fe)); f.io = True
+                return "(EStore (EPtrAdd %s %s) %s)" % (p_, i_, e), f
             if la.get("kind") == "UnaryOperator" and la.get("opcode") == "*":
                 p, fp = expr(la["inner"][0], scope)
                 e, fe = expr(b, scope)
@@ -347,8 +394,12 @@ def expr(n, scope):
             ea, fa = expr(a, scope); eb, fb = expr(b, scope)
             if not order_ok(fa, fb): raise Untranslatable("operands of %s depend on the evaluation order" % op)
             ta, tb = qt(a), qt(b)
-            if op == "+" and is_charptr(ta) and tb == "int":
-                return "(EPtrAdd %s %s)" % (ea, eb), fx_join(fa, fb)
+            if op in ("+", "-") and elem_size(ta) and tb == "int":
+                es = elem_size(ta) * (1 if op == "+" else -1)
+                off = eb if es == 1 else "(EBin Mul (EConst %s) %s)" % (zlit(es), eb)
+                return "(EPtrAdd %s %s)" % (ea, off), fx_join(fa, fb)
+            if op == "+" and ta in SIZE_T and tb in SIZE_T:
+                return "(EBin Add %s %s)" % (ea, eb), fx_join(fa, fb)      # sizes: non-negative, checked as ints
             if ta in SIZE_T and tb in SIZE_T and op in ("==", "!=", "<", "<=", ">", ">="):
                 return "(EBin %s %s %s)" % (BIN[op], ea, eb), fx_join(fa, fb)        # counts of fread / fwrite: 0 or 1
             if not (ta in CTY and tb in CTY): raise Untranslatable("operator %s on %s, %s" % (op, ta, tb))
@@ -425,7 +476,7 @@ def stmt1(n, scope, declared):
             if d.get("kind") != "VarDecl": raise Untranslatable("declaration of " + str(d.get("kind")))
             nm, t = d["name"], qt(d)
             if d.get("storageClass") in ("static", "extern"): raise Untranslatable("static local " + nm)
-            if not (t in CTY or is_charptr(t)): raise Untranslatable("local %s of type %s" % (nm, t))
+            if not (t in CTY or is_charptr(t) or t.replace(" ", "") == "int*"): raise Untranslatable("local %s of type %s" % (nm, t))
             if nm in declared: raise Untranslatable("second declaration of " + nm)
             declared.add(nm)
             if d.get("inner"):
